@@ -262,16 +262,26 @@ def run(facts, rep, tier):
     # ------------------------------------------------------------ W5b per-variant helpers
     from lib import PCanon
     n_b = 0
+    # one pass: call sites of local fns that sit inside an iteration
+    loop_calls = {}
+    local_fns = {hh["fn"] for hh in c.user_fns()}
+    for hh in c.user_fns():
+        for x, xa in walk(hh["body"]):
+            if x.get("k") in ("call", "mcall") and x.get("fn") in local_fns and x.get("fn") != hh["fn"]:
+                if any(a.get("k") == "closure" or (a.get("k") == "match" and a.get("src") == "for") for a in xa):
+                    loop_calls.setdefault(x["fn"], []).append((hh, x, xa))
+    canon_cache = {}
     for h in c.user_fns():
         # callers that invoke h per element: which parameters vary with the element
         varying = set()
         called_in_loop = False
-        for hh in c.user_fns():
-            cnc = None
-            for x, xa in walk(hh["body"]):
-                if x.get("k") in ("call", "mcall") and x.get("fn") == h["fn"] and hh is not h:
-                    if any(a.get("k") == "closure" or (a.get("k") == "match" and a.get("src") == "for") for a in xa):
-                        cnc = cnc or Canon(c, hh, 4)
+        for (hh, x, xa) in loop_calls.get(h["fn"], []):
+            cnc = canon_cache.get(hh["fn"])
+            for _once in (1,):
+                if True:
+                    if True:
+                        if cnc is None:
+                            cnc = canon_cache[hh["fn"]] = Canon(c, hh, 4)
                         args = ([x["recv"]] if x.get("k") == "mcall" else []) + list(x["args"])
                         # the element of the innermost enclosing iteration, as Canon renders it
                         elem_txt = []
